@@ -51,6 +51,10 @@ func genResults(r *run, n int, o simcommon.GenOpts) []vegeta.Result {
 			r.infra = err.Error()
 			return nil
 		}
+		if r.tape.Prob(1, 12) {
+			// the standard methods in other spellings of case: a method is recorded as the target wrote it
+			rs[i].Method = []string{"get", "Post", "delete", "oPTIONS", "Get", "PATCH", "head"}[r.tape.Choose(7)]
+		}
 	}
 	return rs
 }
